@@ -3,7 +3,7 @@
 # (scratch copies, /repo untouched) and print one line per change: CAUGHT / MISSED.
 cd "$(dirname "$0")/.."
 n=0; c=0
-for d in seeded/*/; do
+for d in ${1:-seeded/*/}; do
   id=$(basename "$d"); prop=$(python3 -c "import json,sys; print(json.load(open(sys.argv[1]))[\"breaks_property\"])" "$d/meta.json")
   line=$(SEED_NO_TESTS=1 tools/seeded.sh "$d" "$prop" 2>&1 | tail -1)
   n=$((n+1))
